@@ -174,4 +174,95 @@ theorem decompressOneChan_eq (m : ModeOne) (signed : Bool) (a b : Nat)
       ep_tr_unsigned _ _ _ _ hp.2 hd'.2 ha hb,
       ep_tr_signed _ _ _ _ hp.1 hp.2 hd'.2 ha hb]
 
+/-! ### unquantize -/
+
+/-- `unquantize`: every wrap32 is the identity; equals the spec; result range -/
+theorem unquantize_eq (signed : Bool) (bits : Nat) (c : Int)
+    (hbits : bits = 6 ∨ bits = 7 ∨ bits = 8 ∨ bits = 9 ∨ bits = 10 ∨ bits = 11 ∨ bits = 12 ∨ bits = 16)
+    (hc : inRange signed bits c) :
+    Bc6.unquantize c bits signed = Bc6Spec.unquantize signed bits c ∧
+    (if signed then -32768 ≤ Bc6Spec.unquantize signed bits c ∧ Bc6Spec.unquantize signed bits c ≤ 32767
+     else 0 ≤ Bc6Spec.unquantize signed bits c ∧ Bc6Spec.unquantize signed bits c ≤ 65535) := by
+  cases signed <;> rcases hbits with h | h | h | h | h | h | h | h <;> subst h <;>
+    simp only [inRange, Bc6.unquantize, Bc6Spec.unquantize, shl32, sar32, Nat.reducePow, Nat.reduceSub,
+      Int.cast_ofNat_Int, Bool.not_true, Bool.not_false, Bool.false_eq_true, if_false, if_true,
+      Nat.reduceLeDiff, ge_iff_le, Int.one_mul, true_and] at hc ⊢ <;>
+    (try simp (disch := omega) only [wrap32_id, true_and]) <;> (repeat' split) <;> omega
+
+/-! ### interpolate, finish_unquantize -/
+
+/-- `finish_unquantize`, unsigned: no wrap, equals the spec -/
+theorem finishUnquantize_unsigned (e : Int) (he : 0 ≤ e ∧ e ≤ 65535) :
+    finishUnquantize e false = Bc6Spec.finish false e := by
+  simp only [finishUnquantize, Bc6Spec.finish, sar32, Nat.reducePow, Int.cast_ofNat_Int, Bool.not_false, if_true]
+  simp (disch := omega) only [wrap32_id]
+  simp only [toU32, U16]
+  have hd : 0 ≤ e * 31 / 64 ∧ e * 31 / 64 ≤ 65535 := by omega
+  generalize e * 31 / 64 = d at *
+  omega
+
+/-- `finish_unquantize`, signed: no wrap, equals the spec -/
+theorem finishUnquantize_signed (e : Int) (he : -32768 ≤ e ∧ e ≤ 32767) :
+    finishUnquantize e true = Bc6Spec.finish true e := by
+  have hm : e.natAbs * 31 / 32 < 32768 := by omega
+  have hC : (if e < 0 then wrap32 (-(sar32 (wrap32 (wrap32 (-e) * 31)) 5)) else sar32 (wrap32 (e * 31)) 5)
+      = if e < 0 then -((e.natAbs * 31 / 32 : Nat) : Int) else ((e.natAbs * 31 / 32 : Nat) : Int) := by
+    simp only [sar32, Nat.reducePow, Int.cast_ofNat_Int]
+    simp (disch := omega) only [wrap32_id]
+    split <;> omega
+  have key : ∀ C : Int, C = (if e < 0 then -((e.natAbs * 31 / 32 : Nat) : Int) else ((e.natAbs * 31 / 32 : Nat) : Int)) →
+      ((if C < 0 then 0x8000 else 0) ||| toU32 (if C < 0 then wrap32 (-C) else C)) % U16 = Bc6Spec.finish true e := by
+    intro C hCe
+    simp only [Bc6Spec.finish, Bool.not_true, Bool.false_eq_true, if_false]
+    generalize e.natAbs * 31 / 32 = m at *
+    have hU : toU32 (m : Int) = m := by unfold toU32; omega
+    by_cases hneg : e < 0 <;> simp only [hneg, if_true, if_false] at hCe <;> subst hCe
+    · by_cases hm0 : m = 0
+      · have h1 : ¬ (-(m : Int) < 0) := by omega
+        have h2 : ¬ (e < 0 ∧ m ≠ 0) := fun h => h.2 hm0
+        subst hm0
+        simp only [h1, h2, if_false, Nat.zero_or]
+        decide
+      · have h1 : -(m : Int) < 0 := by omega
+        have h2 : e < 0 ∧ m ≠ 0 := ⟨hneg, hm0⟩
+        rw [if_pos h2]
+        simp only [h1, if_true]
+        rw [wrap32_id _ (by omega) (by omega), Int.neg_neg, hU, or_sign m hm]
+        unfold U16; omega
+    · have h1 : ¬ ((m : Int) < 0) := by omega
+      have h2 : ¬ (e < 0 ∧ m ≠ 0) := fun h => hneg h.1
+      simp only [h1, h2, if_false, Nat.zero_or, hU]
+      unfold U16; omega
+  simp only [finishUnquantize, Bool.not_true, Bool.false_eq_true, if_false]
+  exact key _ hC
+
+/-- the interpolation sum and shift without wraps (`A = a * (64 - w)`, `B = b * w`) -/
+theorem lerp_core (A B : Int) (hA : -4194304 ≤ A ∧ A ≤ 4194304) (hB : -4194304 ≤ B ∧ B ≤ 4194304) :
+    sar32 (wrap32 (wrap32 (wrap32 A + wrap32 B) + 32)) 6 = (A + B + 32) / 64 := by
+  simp only [sar32, Nat.reducePow, Int.cast_ofNat_Int]
+  simp (disch := omega) only [wrap32_id]
+
+/-- interpolate + finish_unquantize: every wrap32 is the identity; equals the spec.  For every weight 0..64. -/
+theorem paletteEntry_eq (signed : Bool) (a b : Int) (w : Nat) (hw : w ≤ 64)
+    (ha : if signed then -32768 ≤ a ∧ a ≤ 32767 else 0 ≤ a ∧ a ≤ 65535)
+    (hb : if signed then -32768 ≤ b ∧ b ≤ 32767 else 0 ≤ b ∧ b ≤ 65535) :
+    paletteEntry a b w signed = Bc6Spec.finish signed (Bc6Spec.lerp a b w) := by
+  have hw0 : (0 : Int) ≤ 64 - (w : Int) := by omega
+  have hw1 : (0 : Int) ≤ (w : Int) := by omega
+  unfold paletteEntry Bc6Spec.lerp
+  rw [wrap32_id (64 - (w : Int)) (by omega) (by omega)]
+  cases signed <;> simp only [Bool.false_eq_true, if_false, if_true] at ha hb
+  · have h1 := Int.mul_le_mul_of_nonneg_right ha.2 hw0
+    have h2 := Int.mul_le_mul_of_nonneg_right ha.1 hw0
+    have h3 := Int.mul_le_mul_of_nonneg_right hb.2 hw1
+    have h4 := Int.mul_le_mul_of_nonneg_right hb.1 hw1
+    rw [lerp_core _ _ (by omega) (by omega)]
+    exact finishUnquantize_unsigned _ (by omega)
+  · have h1 := Int.mul_le_mul_of_nonneg_right ha.2 hw0
+    have h2 := Int.mul_le_mul_of_nonneg_right ha.1 hw0
+    have h3 := Int.mul_le_mul_of_nonneg_right hb.2 hw1
+    have h4 := Int.mul_le_mul_of_nonneg_right hb.1 hw1
+    rw [lerp_core _ _ (by omega) (by omega)]
+    exact finishUnquantize_signed _ (by omega)
+
 end Dds.Bc6
